@@ -70,6 +70,33 @@ class {name}(cohdl.Entity):
                 flag.clear()
                 self.accrecv ^= True
 '''
+FLAG_UNGUARDED = '''
+class {name}(cohdl.Entity):
+{clkports}
+    send = Port.input(Bit)
+    recv = Port.input(Bit)
+    din = Port.input(BitVector[1])
+    accsend = Port.output(Bit, default=False)
+    accrecv = Port.output(Bit, default=False)
+
+    def architecture(self):
+        flag = std.SyncFlag({args})
+
+        @std.sequential(std.Clock(self.{ca}))
+        def sender():
+            # the producer calls set() whenever asked, also while it still observes the flag as set:
+            # "a set issued while the flag is already set has no effect" - only a set on a clear flag counts as sent
+            if self.send:
+                if flag.is_clear():
+                    self.accsend ^= True
+                flag.set()
+
+        @std.sequential(std.Clock(self.{cb}))
+        def receiver():
+            if self.recv and flag.is_set():
+                flag.clear()
+                self.accrecv ^= True
+'''
 FLAG_CORO = '''
 class {name}(cohdl.Entity):
 {clkports}
@@ -104,6 +131,7 @@ def configs(tier):
         args = "" if (tx, rx) == (0, 0) else f"tx_delay={tx}, rx_delay={rx}"
         cfgs.append(dict(kind="mailbox", w=1, args=args, ctx="two", two=0))
         cfgs.append(dict(kind="flag", w=1, args=args, ctx="two", two=0))
+        cfgs.append(dict(kind="flag_unguarded", w=1, args=args, ctx="two", two=0))
         if tx == rx and tx <= 1:
             cfgs.append(dict(kind="mailbox", w=2, args=args, ctx="two", two=0))
             if (tx, rx) == (0, 0):
@@ -123,7 +151,8 @@ def source(name, c):
     if c["kind"] == "mailbox":
         body = MAILBOX_ONE if c["ctx"] == "one" else MAILBOX_TWO.format(ca=ca, cb=cb)
         return MAILBOX.format(name=name, clkports=clkports, w=c["w"], args=c["args"], body=body)
-    return FLAG.format(name=name, clkports=clkports, args=c["args"], ca=ca, cb=cb)
+    tmpl = FLAG_UNGUARDED if c["kind"] == "flag_unguarded" else FLAG
+    return tmpl.format(name=name, clkports=clkports, args=c["args"], ca=ca, cb=cb)
 
 
 def run(tier):
